@@ -263,7 +263,25 @@ def pf_mode(tr, k):
 def oracle_c14(tr: Trace):
     table = tr.cfg["faults"]
     cancelled = None        # id of the running transaction once a notice-of-cancellation callback was delivered for it
+    clock = 0
+    ignored_at = {}         # limit condition -> clock value of the call that declared it with the IGNORE handler
     for k, st in enumerate(tr.steps):
+        # an IGNOREd limit fault lets the procedure carry on (counter, timer): a following call that finds no new expiry
+        # (the clock has not moved) does not declare it again  [F22: NAK limit; F34: check limit, sender's ACK / check limit]
+        if st.tag == 5:
+            clock += st.op[1]
+        if st.tag in (4, 8) or st.ob["fields"]["state"] == 0:
+            ignored_at = {}
+        for e in st.ob["events"]:
+            if e[0] == 13 and e[3] in (1, 7, 10):
+                rem = tr.cfg["remotes"] or [{}]
+                interval = {1: min(r.get("ack_ms", 0) for r in rem), 7: min(r.get("nak_ms", 0) for r in rem),
+                            10: tr.cfg.get("check_ms", 0)}[e[3]]
+                if e[3] in ignored_at and clock - ignored_at[e[3]] < interval:
+                    raise Failure(f"C14 [fixed finding F34 is back] limit fault {e[3]} with handler IGNORE declared again "
+                                  f"{clock - ignored_at[e[3]]} ms after the call that declared it (interval {interval} ms): the "
+                                  f"ignored fault did not let the procedure carry on (op {st.i})")
+                ignored_at[e[3]] = clock
         # "the callback is invoked once ... and the transaction then is cancelled": a cancelled transaction declares nothing
         # that is handled by a second notice of cancellation (faults during the cancel exchange abandon it)
         for e in st.ob["events"]:
